@@ -11,7 +11,8 @@ import common
 import pyref
 import tlcrun
 
-PLANS = {"quick": [("e2e3", "e2e", 3, 4500)], "thorough": [("e2e3", "e2e", 3, None), ("e2e4", "e2e", 4, 60000)]}
+PLANS = {"quick": [("e2e3", "e2e", 3, 4500), ("e2et4", "e2et", 4, 1500)],
+         "thorough": [("e2e3", "e2e", 3, None), ("e2e4", "e2e", 4, 60000), ("e2et5", "e2et", 5, 40000)]}
 OPS = ("Select", "Where", "SelectMany")
 
 TYPED_SOURCE = '''
@@ -106,7 +107,7 @@ def run(prop, tier):
         name = f"c01_queries_{c0 // CHUNK}"
         modpath = os.path.join(moddir, name + ".py")
         with open(modpath, "w") as f:
-            f.write("CUT = 30\nSCALE = 2\n" + pyref.HELPERS_SRC.replace("\ndef ", "\n\n\ndef ") + "\n\n")
+            f.write("CUT = 30\nSCALE = 2\nx = 1000  # module globals named like the binders the programs use\ny = 2000\n" + pyref.HELPERS_SRC.replace("\ndef ", "\n\n\ndef ") + "\n\n")
             for i in range(c0, min(c0 + CHUNK, len(progs))):
                 body = "        ds\n"
                 for op, lam in chain_steps_m(progs[i]):
